@@ -664,7 +664,8 @@ def g_extremes(F, rng, big=100000):
         out.append(mk(F.name, "", "0" * 800, e, "G5:zero"))
         out.append(mk(F.name, "123456789012345678901234567890", "5", e, "G5:exp"))
         out.append(mk(F.name, "", "00000000000000000000000123", e, "G5:exp"))
-    for n in (big, big + 1, big - 1, 5000):
+    # digit counts around 2^8, 2^15, 2^16 (+19 significant digits) as well: a count kept in a narrower type
+    for n in (big, big + 1, big - 1, 5000, 255, 256, 274, 275, 32767, 32768, 32786, 32787, 65535, 65536, 65554, 65555, 70000):
         # 1 followed by n zeros with exponent -n+-1
         for de in (-1, 0, 1):
             out.append(mk(F.name, one + Z(n), [], -n + de, "G5:comp"))
